@@ -260,6 +260,7 @@ PROPS.update({
             'termination is observed through a watchdog: 8 s per call'],
     ),
     'C17': dict(
+        thorough_scale=2,
         gens=[('louv', 'ties', 1200, 20000, 12), ('louv', 'random', 600, 10000, 9)],
         spec_fields=[], model_fields=[r'build'], impl_checks=[('same', '1')],
         extra_checks=['fresh_process_identical'],
@@ -309,6 +310,7 @@ def gen_hist(req, I):
 
 PROPS.update({
     'C16': dict(
+        thorough_scale=1.5,
         gens=[('complete', '-', 120, 600, 14), ('karate', '-', 1, 1, 0), ('gnp', 'small', 1500, 25000, 40), ('gnp', 'large', 40, 400, 300),
               ('gnpstat', '-', 40, 300, 0)],
         translators=['karate'],
@@ -380,6 +382,7 @@ PROPS.update({
 
 PROPS.update({
     'C07': dict(
+        thorough_scale=1,
         gens=[('par', 'some', 40, 0, 0), ('par', 'all', 0, 120, 0)],
         translators=['parallel_sites', 'constants'],
         spec_fields=[], model_fields=[r'build'], impl_checks=[('par', '1')],
@@ -421,6 +424,7 @@ DEGEN_MODEL = [r'get_node', r'has_node', r'get_edges_for_node', r'get_in_edges_f
 
 PROPS.update({
     'C20': dict(
+        thorough_scale=1,
         gens=[('degen', '-', 864, 864, 0)],
         translators=['pub_fns'],
         spec_fields=[r'.*'], model_fields=DEGEN_MODEL, require_spec_fields=False, custom=degen_custom,
